@@ -316,6 +316,9 @@ def vincdir_utm(zone1, east1, north1, grid1to2, grid_dist,
     # Estimate Line Scale Factor (LSF)
     zone2, east2, north2 = (zone1, *radiations(east1, north1,
                                                grid1to2, grid_dist))
+    # (plane estimate only: next to the equator it may fall outside the
+    # northing range of the hemisphere)
+    north2 = min(max(north2, 0), 10000000)
     lsf = line_sf(zone1, east1, north1, zone2, east2, north2)
 
     # Iteratively estimate Pt 2 Coordinates, refining LSF each time
